@@ -640,6 +640,42 @@ class Ctx:
         return out
 
 
+def deep_origins(ws, fn, operand, mode=True, depth=3, _seen=None):
+    """fn_origins, with parameter origins (`p#k[.path]`) replaced by the origins of the corresponding argument at
+    every workspace call site of fn (up to `depth` callers up).  Lets a rule state where a value comes from without
+    naming the helper functions it travels through."""
+    import re as _re
+    _seen = _seen if _seen is not None else set()
+    og = fn_origins(fn, operand, mode)
+    root = fn.root()
+    if depth == 0 or id(root) in _seen:
+        return og
+    _seen = _seen | {id(root)}
+    out = set(og)
+    params = {}
+    for o in og:
+        m = _re.match(r'^p#(\d+)(\..*)?$', o)
+        if m:
+            params.setdefault(int(m.group(1)), set()).add(m.group(2) or '')
+    if not params:
+        return out
+    for caller, _line in ws.callers_of(root.name):
+        if caller.unit.tag not in ('lib', 'bin'):
+            continue
+        for c in caller.body.calls():
+            if root.name not in c.names():
+                continue
+            for k, suffixes in params.items():
+                if 0 < k <= len(c.args):
+                    sub = deep_origins(ws, caller, c.args[k - 1], mode, depth - 1, _seen)
+                    for x in sub:
+                        out.add(x)
+                        for suf in suffixes:
+                            if suf and x.startswith(('param:', 'p#', 'pty:')):
+                                out.add(x + suf)
+    return out
+
+
 def parse_sql_comparison(text):
     """`col op ?` / `? op col` -> (col, op) with op normalised to col-on-the-left; None if not a single comparison."""
     import re as _re
